@@ -13,7 +13,8 @@
 //   native   : consumer is plain code; co_await accesses are made by a small coroutine per access,
 //              futures returned by gen() are kept and inspected when ready
 //   coro     : one consumer coroutine (cocls::async<void>) performs all accesses: sync ones, co_await
-//              gen.next(), co_await of the future, and a real range-for for begin/inc runs
+//              gen.next(), co_await of the future / of future::has_value() / future kept and the awaited
+//              operation completed by the coroutine itself, and a real range-for for begin/inc runs
 //   thr_late / thr_early : as native but the consumer runs on its own thread under the controlled
 //              scheduler (vsched); a sync access may really block in _block.wait(), every other gen()
 //              future is waited for with a blocking sync(), and the awaited operation is completed by
@@ -87,7 +88,7 @@ struct Obs {
 };
 struct Got { int a; int v; };
 
-enum Kind { K_SYNC, K_BEGIN, K_INC, K_POSTINC, K_COAWAIT, K_FUTURE, K_DESTROY, K_QUIT };
+enum Kind { K_SYNC, K_BEGIN, K_INC, K_POSTINC, K_COAWAIT, K_FUTURE, K_DESTROY, K_RESOLVE, K_QUIT };
 struct Cmd { Kind kind = K_QUIT; int idx = 0; };
 
 template <typename G> struct World;
@@ -326,6 +327,10 @@ struct World {
     }
 
     void exec_native(const Cmd &c) {
+        if (c.kind != K_DESTROY && !iter && (c.idx & 1) == 0) {
+            G tmp = std::move(*gen);       // generators are movable; adapters created later refer to the new object
+            gen.emplace(std::move(tmp));
+        }
         switch (c.kind) {
             case K_SYNC: sync_access(c.idx); break;
             case K_BEGIN: case K_INC: case K_POSTINC: iter_access(c.kind, c.idx); break;
@@ -503,6 +508,11 @@ struct World {
                     for (int fuel = 0; fuel < 100000 && !sched.done(rt) && sched.enabled(rt); fuel++) sched.step(rt);
                     if (!sched.done(rt)) { rep.diverge(k, "completing thread is stuck got=" + project().dump()); bad = true; break; }
                     continue_consumer();
+                } else if (mode == "coro" && gate_h) {
+                    // the consumer coroutine is not suspended in an access (it keeps a pending future
+                    // without awaiting it): it completes the operation itself, in coroutine context --
+                    // the body is then only queued and runs when the consumer suspends next
+                    send(Cmd{K_RESOLVE, kk});
                 } else {
                     resolve(kk);
                     if (threaded) continue_consumer();
@@ -588,7 +598,9 @@ cocls::async<void> consumer(World<G> &w) {
                     w.observe_next(w.obs[i - 1], b);
                 } catch (const cocls::no_more_values_exception &) { w.obs[i - 1].r = "nomore"; }
             } break;
+            case K_RESOLVE: w.resolve(c.idx); break;
             case K_FUTURE: {
+                if (i % 3 == 0) { w.future_access(i); break; }     // kept, not awaited; looked at when ready
                 try {
                     if (i & 1) {
                         // keep the future, ask it
